@@ -57,8 +57,8 @@ type CrashSpec struct {
 	Compactors int     `json:"compactors"`
 	// ManifestRewrite > 0: run the production MANIFEST rewrite (write MANIFEST-REWRITE, sync, rename
 	// over MANIFEST, sync directory) every that many milliseconds during the workload
-	ManifestRewrite int `json:"manifest_rewrite,omitempty"`
-	MemTable   int64   `json:"memtable"`
+	ManifestRewrite int   `json:"manifest_rewrite,omitempty"`
+	MemTable        int64 `json:"memtable"`
 	// SeparateValueDir puts the value log into <dir>/vdir1 (its own directory lock and directory syncs)
 	SeparateValueDir bool `json:"separate_value_dir,omitempty"`
 }
